@@ -13,13 +13,13 @@ def run(tier):
     json.dump(table, open(tf, "w"))
     for s in range(6 if tier == "thorough" else 1):
         o = os.path.join(wd, "out.json")
-        conform("stable", ["pwstr", tf, o, ck.seed + s], timeout=3000)
+        conform("stable", ["pwstr", tf, o, ck.seed + s, (2 if tier == "thorough" else 1) if s == 0 else 0], timeout=3000)
         ck.add_report(json.load(open(o)))
     if not ck.cov["distinct_nontrivial"]:
         ck.cov["distinct_nontrivial"] = len(table["valid"]) + len(table["rehash"])
     ck.cov["rule"] = ("objects = algorithm x t x m x salt length {8,15,16,17,64} x hash length {16,31,32,33,128} of PwStr.tla (%d), each hashed, encoded as the spec prescribes, "
                       "verified by libsodium and by dryoc (classic + object) for the right and a wrong password, parsed and re-encoded; needs-rehash truth table (%d rows) against dryoc and libsodium; "
-                      "40 libsodium-produced strings per algorithm verified under dryoc and dryoc-produced strings under libsodium" % (len(table["valid"]), len(table["rehash"])))
+                      "40 libsodium-produced strings per algorithm verified under dryoc and dryoc-produced strings under libsodium; stock profiles hash_interactive / hash_moderate (thorough: hash_sensitive) carry libsodium's cost constants and verify under libsodium" % (len(table["valid"]), len(table["rehash"])))
     ck.assumptions += ["small costs (t <= 4, m <= 1 MiB)", "the classic crypto_pwhash_str_verify is judged on 32-byte hashes only (libsodium's string format); variable lengths belong to the object API",
                        "libsodium's crypto_pwhash_str_verify is the independent verifier for every salt/hash length"]
     return ck.finish()
